@@ -217,11 +217,16 @@ def audit_axioms(module, names, timeout=900):
         except OSError:
             pass
     res = {n: None for n in names}
-    # output: "'name' depends on axioms: [a, b]" or "'name' does not depend on any axioms"
-    for m in re.finditer(r"'([^']+)' depends on axioms: \[([^\]]*)\]", out):
-        res[m.group(1)] = set(x.strip() for x in m.group(2).replace("\n", " ").split(",") if x.strip())
-    for m in re.finditer(r"'([^']+)' does not depend on any axioms", out):
-        res[m.group(1)] = set()
+    # output: "'name' depends on axioms: [a, b]" (possibly wrapped) or "'name' does not depend on any axioms"
+    flat = re.sub(r"\n\s+", " ", out)
+    for line in flat.split("\n"):
+        m = re.match(r"^'(.+)' depends on axioms: \[([^\]]*)\]", line)
+        if m:
+            res[m.group(1)] = set(x.strip() for x in m.group(2).split(",") if x.strip())
+            continue
+        m = re.match(r"^'(.+)' does not depend on any axioms", line)
+        if m:
+            res[m.group(1)] = set()
     return res, out
 
 
